@@ -10,7 +10,9 @@ package main
 import (
 	"fmt"
 	"go/constant"
+	"go/token"
 	"go/types"
+	"os"
 	"sort"
 	"strings"
 
@@ -136,11 +138,128 @@ func newEvalDom(p *Program) *evalDom {
 				}
 			}
 		}
-		if n > 0 && thin {
+		_ = thin
+		if n > 0 {
+			// loop-free and closure-free: whatever it evaluates, against whatever, shows up as the same events in the
+			// dispatcher's own path
+			d.wrapper[fn] = true
+		}
+		if os.Getenv("JMESCHECK_DEBUG_WRAP") != "" && n > 0 {
+			fmt.Fprintf(os.Stderr, "loop-free evaluating function %s thin=%v\n", fn.Name(), thin)
+		}
+	}
+	// adapters: a function that does nothing but call one other function of the package and box or negate its result
+	for _, fn := range all {
+		if fn == d.evalFn || d.wrapper[fn] || len(fn.Blocks) != 1 || len(fn.AnonFuncs) > 0 || fn.Signature.Recv() != nil {
+			continue
+		}
+		calls, other := 0, false
+		for _, in := range fn.Blocks[0].Instrs {
+			switch x := in.(type) {
+			case *ssa.Call:
+				cf := x.Call.StaticCallee()
+				if cf == nil || cf.Pkg != d.pkg || cf == fn {
+					other = true
+				}
+				calls++
+			case *ssa.MakeInterface, *ssa.ChangeType, *ssa.ChangeInterface, *ssa.Return, *ssa.DebugRef:
+			case *ssa.UnOp:
+				if x.Op != token.NOT {
+					other = true
+				}
+			default:
+				other = true
+			}
+		}
+		if calls == 1 && !other {
+			d.wrapper[fn] = true
+		}
+	}
+	// evaluation contexts: struct types of the package that hold a scope (an argument cursor, a collector). Loop-free,
+	// closure-free functions that build, take or return one are interpreted as part of their caller.
+	ctx := map[*types.Named]bool{}
+	for _, m := range d.pkg.Members {
+		if t, ok := m.(*ssa.Type); ok {
+			if nt, ok := t.Type().(*types.Named); ok {
+				if st, ok := nt.Underlying().(*types.Struct); ok {
+					for i := 0; i < st.NumFields(); i++ {
+						if types.Identical(st.Field(i).Type(), d.scopeT) {
+							ctx[nt] = true
+						}
+					}
+				}
+			}
+		}
+	}
+	mentions := func(t types.Type) bool {
+		if pt, ok := t.(*types.Pointer); ok {
+			t = pt.Elem()
+		}
+		nt, ok := types.Unalias(t).(*types.Named)
+		return ok && ctx[nt]
+	}
+	for _, fn := range all {
+		if fn == d.evalFn || d.wrapper[fn] || len(loopsOf(fn)) > 0 || len(fn.AnonFuncs) > 0 {
+			continue
+		}
+		sig := fn.Signature
+		hit := sig.Recv() != nil && mentions(sig.Recv().Type())
+		for i := 0; i < sig.Params().Len(); i++ {
+			hit = hit || mentions(sig.Params().At(i).Type())
+		}
+		for i := 0; i < sig.Results().Len(); i++ {
+			hit = hit || mentions(sig.Results().At(i).Type())
+		}
+		if hit {
 			d.wrapper[fn] = true
 		}
 	}
 	return d
+}
+
+// partOfDispatcherFn returns the predicate "f is the dispatcher itself, or a function D-DISPATCH interprets as part of it
+// (a loop-free helper that evaluates operands, an adapter around one helper, a constructor or method of an evaluation
+// context) all of whose own callers are part of the dispatcher too".
+func (d *evalDom) partOfDispatcherFn() func(f *ssa.Function) bool {
+	p := d.p
+	memo := map[*ssa.Function]int{}
+	var part func(f *ssa.Function) bool
+	part = func(f *ssa.Function) bool {
+		for f.Parent() != nil {
+			f = f.Parent()
+		}
+		if d.why == "" && f == d.evalFn {
+			return true
+		}
+		if f == p.RoleFunc("evaluator", "evaluator", "evaluate") {
+			return true
+		}
+		if d.why != "" || !d.wrapper[f] {
+			return false
+		}
+		switch memo[f] {
+		case 1, 3:
+			return true // 3: a cycle among wrappers
+		case 2:
+			return false
+		}
+		memo[f] = 3
+		ok := true
+		if node := p.CG.Nodes[f]; node != nil {
+			for _, e := range node.In {
+				if !part(e.Caller.Func) {
+					ok = false
+				}
+			}
+		}
+		if ok {
+			memo[f] = 1
+		} else {
+			memo[f] = 2
+		}
+		return ok
+	}
+	return part
 }
 
 // nodeForms returns the dynamic types (T or *T) under which the parser stores its node structs in the Node interface.
